@@ -682,6 +682,94 @@ def part_dft(ctx, cs):
         cs.count("dft2")
 
 
+
+# ---------------------------------------------------------------------------
+# public parameters that the other parts leave at their defaults
+#   dft(x, xscale, axis, kscale): xscale, kscale        dft2(x, r, c, nk, nl): irregular r, c; nk, nl != grid
+#   fexpand(x, ns=1): default ns                          (convolve / fcn_cosine gpu=True need cupy: not run)
+# ---------------------------------------------------------------------------
+def part_params(ctx, cs):
+    f, rng = F(), ctx.rng
+    for it in range(120 if ctx.thorough() else 48):
+        nd = rng.choice([1, 1, 2, 3])
+        shp = [rng.randrange(1, 6) for _ in range(nd)]
+        axis = rng.randrange(nd)
+        ns = rng.choice([1, 2, 3, 4, 5, 7, 8, 9, 12, 16, 27])
+        shp[axis] = ns
+        cplx = rng.random() < 0.4
+        x = gauss(rng, shp, real=not cplx)
+        kind = ["centred", "negative", "subset", "permutation", "upper-half", "repeat", "beyond", "single", "prefix"][it % 9]
+        full = list(range(ns))
+        ks = {"centred": list(range(-(ns // 2), ns - ns // 2)), "negative": [-k for k in range(1, ns + 1)],
+              "subset": sorted(rng.sample(full, max(1, ns // 2))), "permutation": rng.sample(full, ns),
+              "upper-half": list(range(ns // 2, ns)), "repeat": [rng.randrange(ns) for _ in range(ns + 2)],
+              "beyond": [ns, ns + 1, 2 * ns + 1, -ns - 1], "single": [rng.randrange(-ns, 2 * ns)],
+              "prefix": list(range(max(1, ns - 1)))}[kind]
+        xs_kind = rng.choice(["default", "arange", "shifted", "permuted"])
+        xscale = {"default": None, "arange": np.arange(ns), "shifted": np.arange(ns) + rng.randrange(-3, 4),
+                  "permuted": np.array(rng.sample(full, ns))}[xs_kind]
+        kdt = rng.choice([np.int64, np.int32, np.float64])
+        d = {"op": "dft-kscale", "x": flat_c(x.reshape(-1)), "shape": shp, "axis": axis, "kscale": ks, "kind": kind,
+             "xscale": None if xscale is None else xscale.tolist()}
+        tags = {"op": "dft", "kind": "kscale-" + kind, "xscale": xs_kind}
+        kw = {} if xscale is None else {"xscale": xscale}
+        try:
+            X = np.asarray(f.dft(x if cplx else x.real, axis=axis, kscale=np.array(ks, dtype=kdt), **kw))
+        except Exception as e:
+            ctx.fail("dft(kscale=%s bins) raised %r" % (kind, e), d, dict(tags, err="exception"))
+            continue
+        # textbook: X[j] = sum_n x[n] exp(-2 pi i xscale[n] k_j / ns) along the axis
+        xsc = np.arange(ns) if xscale is None else xscale
+        E = np.exp(-2j * np.pi / ns * np.outer(np.array(ks, dtype=float), xsc))
+        ref = np.moveaxis(np.tensordot(E, np.moveaxis(x, axis, 0), axes=(1, 0)), 0, axis)
+        scale = max(1.0, float(np.abs(x).sum()))
+        if X.shape != ref.shape or np.max(np.abs(X - ref)) > TOL * scale * (1 + max(abs(k) for k in ks)):
+            ctx.fail("dft at the requested bins (%s kscale) differs from sum_n x[n] exp(-2 pi i n k / ns)" % kind, d, tags)
+            continue
+        if xs_kind in ("default", "arange"):
+            fx = np.take(np.fft.fft(x, axis=axis), [k % ns for k in ks], axis=axis)
+            if np.max(np.abs(X - fx)) > TOL * scale * (1 + max(abs(k) for k in ks)):
+                ctx.fail("dft at the requested bins (%s kscale) differs from the FFT at those bins" % kind, d, tags)
+        cs.add([10, ns, int(bool(np.any(np.iscomplex(x)))), len(ks)], [X.shape[axis]], d)
+        cs.evals += 1
+        cs.count("dft_kscale_" + kind)
+        cs.count("dft_xscale_" + xs_kind)
+        cs.nontrivial.add(("dftk", it))
+    # dft2: irregular positions, output sizes different from the grid
+    for it in range(40 if ctx.thorough() else 16):
+        nrc, nt = rng.randrange(1, 12), rng.randrange(1, 4)
+        nk, nl = rng.randrange(1, 6), rng.randrange(1, 6)
+        x = rand_ints(rng, nrc * nt).reshape(nrc, nt).astype(np.float64)
+        den = rng.choice([1, 2, 4, 5, 8])
+        r = np.array([rng.randrange(0, 2 * den) for _ in range(nrc)]) / den
+        c = np.array([rng.randrange(-den, den) for _ in range(nrc)]) / den
+        d = {"op": "dft2-irregular", "x": x.astype(int).tolist(), "r": r.tolist(), "c": c.tolist(), "nk": nk, "nl": nl}
+        try:
+            X = np.asarray(f.dft2(x, r, c, nk, nl))
+        except Exception as e:
+            ctx.fail("dft2 raised %r" % (e,), d, {"op": "dft2", "kind": "exception"})
+            continue
+        kk, ll = np.meshgrid(np.arange(nk), np.arange(nl), indexing="ij")
+        E = np.exp(-2j * np.pi * (kk[..., None] * r[None, None, :] + ll[..., None] * c[None, None, :]))
+        ref = np.tensordot(E, x, axes=(2, 0))
+        if X.shape != (nk, nl, nt) or np.max(np.abs(X - ref)) > TOL * max(1.0, float(np.abs(x).sum())) * (nk + nl):
+            ctx.fail("dft2 differs from sum_p x[p] exp(-2 pi i (k r_p + l c_p))", d, {"op": "dft2", "kind": "irregular"})
+        cs.evals += 1
+        cs.count("dft2_irregular")
+    # fexpand with its default ns (=1): nothing is mirrored
+    for n in (1, 2, 5):
+        H = gauss(rng, (n,))
+        d = {"op": "fexpand", "x": flat_c(H), "shape": [n], "axis": 0, "ns": 1}
+        try:
+            e = np.asarray(f.fexpand(H))
+            if e.ndim != 1 or not np.array_equal(e, H):
+                ctx.fail("fexpand(x) with the default ns is not x", d, {"op": "fexpand", "kind": "default-ns"})
+            else:
+                cs.add([5, 1, n] + flat_c(H), [1, len(e)] + flat_c(e), d)
+        except Exception as ex:
+            ctx.fail("fexpand(x) raised %r" % (ex,), d, {"op": "fexpand", "kind": "exception"})
+        cs.evals += 1
+
 # ---------------------------------------------------------------------------
 # lp / hp / bp and the cosine taper (numeric comparison against the model's symbolic codes)
 # ---------------------------------------------------------------------------
@@ -706,6 +794,20 @@ def rat(rng, choices):
     return rng.choice(choices)
 
 
+# relative position of the high-pass taper [b0, b1] and the low-pass taper [b2, b3] of a band-pass (b0 < b1, b2 < b3
+# always): the response is the PRODUCT hp * lp whatever the ordering
+CORNER_CATS = ["disjoint", "touching", "overlapping", "nested-lp-in-hp", "nested-hp-in-lp", "identical", "reversed",
+               "overlapping"]
+
+
+def arrange_corners(q, cat):
+    """q: four distinct sorted numbers -> [b0, b1, b2, b3] in the requested configuration"""
+    a, b, c, d = q
+    return {"disjoint": [a, b, c, d], "touching": [a, b, b, d], "overlapping": [a, c, b, d],
+            "nested-lp-in-hp": [a, d, b, c], "nested-hp-in-lp": [b, c, a, d], "identical": [a, c, a, c],
+            "reversed": [c, d, a, b]}[cat]
+
+
 AXIS_COMBOS = [(nd, ax) for nd in (1, 2, 3, 4) for ax in range(nd)]
 
 
@@ -723,16 +825,15 @@ def part_filters(ctx, cs):
         bd = rng.choice([1, 10, 100, 7])
         # corner frequencies as integers over bd, spread over [0, 1.2 * Nyquist], sorted, distinct
         top = max(4, int(1.2 * fnyq * bd))
-        while True:
-            b = sorted(rng.sample(range(0, top + 1), 4)) if top >= 4 else [0, 1, 2, 3]
-            if len(set(b)) == 4:
-                break
+        cat = CORNER_CATS[j % len(CORNER_CATS)]
+        b = arrange_corners(sorted(rng.sample(range(0, top + 1), 4)), cat)
         if rng.random() < 0.4 and ns > 3:
             # corners exactly on bins: f_k = k*sq/(ns*sp)  (boundary of the < and > tests)
             ks = sorted(rng.sample(range(0, ns // 2 + 2), min(4, ns // 2 + 2)))
             if len(ks) == 4:
                 bd = ns * sp
-                b = [k * sq for k in ks]
+                b = [k * sq for k in arrange_corners(ks, cat)]
+        cs.count("bp_corners_" + cat)
         jobs.append((ns, sp, sq, bd, b))
     inputs = []
     for (ns, sp, sq, bd, b) in jobs:
@@ -761,9 +862,15 @@ def part_filters(ctx, cs):
             except Exception as e:
                 ctx.fail("%s raised %r" % (typ, e), d, {"op": "filter", "typ": typ, "kind": "exception"})
                 continue
-            Himpl = np.fft.fft(h)
+            Himpl = np.fft.fft(h) if h.shape == (ns,) else np.zeros(ns)
             if h.shape != (ns,) or np.max(np.abs(Himpl - resp[typ])) > 1e-9:
                 ctx.disagree("frequency response of %s differs from the model's taper codes" % typ, dict(d, typ=typ))
+            tb1 = textbook_response(ns, si, bf[0], bf[1])
+            tb = {"hp": tb1, "lp": 1.0 - tb1, "bp": tb1 * (1.0 - textbook_response(ns, si, bf[2], bf[3]))}[typ]
+            if h.shape != (ns,) or np.max(np.abs(Himpl - tb)) > 1e-9:
+                ctx.fail("frequency response of %s is not %s" % (typ, "the product of the high-pass and low-pass cosine tapers"
+                                                                 if typ == "bp" else "the cosine taper at k/(ns*si)"),
+                         dict(d, typ=typ), {"op": "filter", "typ": typ, "kind": "response"})
             cs.evals += 1
             # monotone response between 0 and 1 over the positive frequencies (hp rising, lp falling)
             hh = Himpl.real[:ns // 2 + 1]
@@ -967,8 +1074,9 @@ def run_filter_sequence(f, ns, ts, bd, b, calls, report):
         H = {"hp": H1, "lp": 1.0 - H1, "bp": H1 * (1.0 - textbook_response(ns, si, bf[2], bf[3]))}[typ]
         ref = np.real(np.fft.ifft(np.fft.fft(ts) * H))
         if o.shape != ref.shape or np.max(np.abs(o - ref)) > TOL * scale:
-            report("response", "%s(si=%s/%s) differs from the cosine-taper response sampled at k/(ns*si) "
-                   "(call %d of a sequence varying si)" % (typ, sp, sq, i), i)
+            report("response", "%s(si=%s/%s) differs from %s sampled at k/(ns*si) (call %d of a sequence varying si)"
+                   % (typ, sp, sq, "the product of the high-pass and low-pass cosine tapers" if typ == "bp"
+                      else "the cosine-taper response", i), i)
             return
         got[(typ, sp, sq)] = o
         if (("lp", sp, sq) in got) and (("hp", sp, sq) in got) and typ in ("lp", "hp"):
@@ -983,7 +1091,7 @@ def part_sequences(ctx, cs):
     for key in range(14 if ctx.thorough() else 7):
         ns = rng.choice([8, 9, 16, 27, 30, 64, 81, 100])
         bd = 20
-        b = sorted(rng.sample(range(0, 12), 4))
+        b = arrange_corners(sorted(rng.sample(range(0, 12), 4)), CORNER_CATS[key % len(CORNER_CATS)])
         ts = rand_ints(rng, ns).astype(np.float64)
         calls = [[typ, sp, sq] for (sp, sq) in SEQ_SI for typ in ("lp", "hp", "bp")]
         rng.shuffle(calls)
@@ -1075,7 +1183,7 @@ def run(ctx):
                      % (part.__name__, (Guard.last_call or {}).get("fn"), e, where),
                      Guard.last_call or {"op": "call", "fn": None}, {"op": part.__name__, "kind": "unusable-result"})
 
-    for part in (part_ns_optim, part_convolve, part_fscale, part_half, part_dft):
+    for part in (part_ns_optim, part_convolve, part_fscale, part_half, part_dft, part_params):
         guarded_part(part)
     common.correspondence(ctx, PROP, HEADER, cs.inp, cs.out, lambda i: cs.desc[i], n_kernel=80, shard=40)
     # call sequences before the single-call filter cases: nothing may depend on call history
@@ -1211,6 +1319,29 @@ def replay(ctx, data):
                 sub.fail("filter identities", inp)
             if max(errs.values()) > 1e-9:
                 sub.disagree("response", inp)
+        elif op == "dft-kscale":
+            v = np.array(inp["x"], dtype=float).reshape(-1, 2)
+            x = (v[:, 0] + 1j * v[:, 1]).reshape(inp["shape"])
+            if not np.any(np.iscomplex(x)):
+                x = x.real
+            ks, axis = inp["kscale"], inp["axis"]
+            ns = x.shape[axis]
+            xsc = np.arange(ns) if inp.get("xscale") is None else np.array(inp["xscale"])
+            kw = {} if inp.get("xscale") is None else {"xscale": xsc}
+            X = np.asarray(f.dft(x, axis=axis, kscale=np.array(ks), **kw))
+            E = np.exp(-2j * np.pi / ns * np.outer(np.array(ks, dtype=float), xsc))
+            ref = np.moveaxis(np.tensordot(E, np.moveaxis(x, axis, 0), axes=(1, 0)), 0, axis)
+            print("kscale", ks, "\nimplementation:", np.round(X, 6).reshape(-1)[:8], "\ntextbook:      ", np.round(ref, 6).reshape(-1)[:8])
+            if X.shape != ref.shape or np.max(np.abs(X - ref)) > 1e-6 * max(1.0, float(np.abs(x).sum())):
+                sub.fail("dft at requested bins", inp)
+        elif op == "dft2-irregular":
+            x, r, c = np.array(inp["x"], dtype=float), np.array(inp["r"]), np.array(inp["c"])
+            X = np.asarray(f.dft2(x, r, c, inp["nk"], inp["nl"]))
+            kk, ll = np.meshgrid(np.arange(inp["nk"]), np.arange(inp["nl"]), indexing="ij")
+            ref = np.tensordot(np.exp(-2j * np.pi * (kk[..., None] * r + ll[..., None] * c)), x, axes=(2, 0))
+            print("max |dft2 - textbook| =", float(np.max(np.abs(X - ref))) if X.shape == ref.shape else "shape %s" % (X.shape,))
+            if X.shape != ref.shape or np.max(np.abs(X - ref)) > 1e-6 * max(1.0, float(np.abs(x).sum())):
+                sub.fail("dft2", inp)
         elif op == "filter-sequence":
             ts = np.array(inp["ts"], dtype=float)
 
